@@ -467,7 +467,7 @@ def check_substitution(col: Collector, repo: Repo, rule: str):
             whole = isinstance(last, ast.FormattedValue) and src(last.value) == prm and last.format_spec is None and last.conversion == -1 \
                 and not any(isinstance(v, ast.FormattedValue) and prm in src(v.value) for v in elts[0].values[:-1])
         elif len(elts) == 1 and isinstance(elts[0], ast.BinOp) and isinstance(elts[0].op, ast.Add):
-            whole = src(elts[0].right) == prm and prm not in src(elts[0].left)
+            whole = src(elts[0].right) in (prm, f"str({prm})") and prm not in src(elts[0].left)
     pme = parent_map(se.node)
     cond_store = bool(stores) and bool(guards(se.node, stores[0], pme))
     col.add(rule, se.short, "generated-line-stored-whole", whole and not se_cuts and not recursive and not cond_store,
